@@ -277,6 +277,16 @@ func (f *frame) transIdent(name string, env *Env) TV {
 	if tv, ok := env.vars[name]; ok {
 		return tv
 	}
+	// captured variable of a function literal: the content of its cell
+	if env.f == f && f.fn != nil && env.st != nil {
+		for _, fv := range f.fn.FreeVars {
+			if fv.Name() == name {
+				if _, ok := f.vals[fv]; ok {
+					return f.load(env.st, f.lvalOf(fv))
+				}
+			}
+		}
+	}
 	if tv, ok := f.localAt(name, env); ok {
 		return tv
 	}
@@ -302,7 +312,17 @@ func (f *frame) localAt(name string, env *Env) (TV, bool) {
 		return TV{}, false
 	}
 	anchor := env.anchorBlock
-	var best *ssa.DebugRef
+	type cand struct {
+		x      ssa.Value
+		isAddr bool
+		b      *ssa.BasicBlock
+	}
+	var best *cand
+	consider := func(cd *cand) {
+		if best == nil || best.b == cd.b || best.b.Dominates(cd.b) {
+			best = cd
+		}
+	}
 	for _, b := range f.fn.Blocks {
 		if !(b == anchor || b.Dominates(anchor)) {
 			continue
@@ -310,6 +330,14 @@ func (f *frame) localAt(name string, env *Env) (TV, bool) {
 		for i, in := range b.Instrs {
 			if b == anchor && i >= env.anchorIdx {
 				break
+			}
+			// a join of the variable's definitions (the source variable is named in
+			// the phi's comment)
+			if phi, ok := in.(*ssa.Phi); ok && phi.Comment == name {
+				if _, isLV := f.lvs[phi]; !isLV {
+					consider(&cand{x: phi, b: b})
+				}
+				continue
 			}
 			d, ok := in.(*ssa.DebugRef)
 			if !ok {
@@ -336,36 +364,50 @@ func (f *frame) localAt(name string, env *Env) (TV, bool) {
 				} else if !types.Identical(o.Type(), d.X.Type()) {
 					continue
 				}
-				if best == nil || best.Block() == b || best.Block().Dominates(b) {
-					best = d
-				}
+				consider(&cand{x: d.X, isAddr: d.IsAddr, b: b})
 			}
 		}
 	}
 	if best == nil {
+		// a named result kept in a cell (functions with defers): allocated at entry
+		if env.st != nil && f.fn.Signature != nil {
+			rs := f.fn.Signature.Results()
+			for i := 0; i < rs.Len(); i++ {
+				if rs.At(i).Name() != name {
+					continue
+				}
+				for _, al := range f.fn.Locals {
+					if al.Comment == name && types.Identical(al.Type().(*types.Pointer).Elem(), rs.At(i).Type()) {
+						if _, ok := f.vals[al]; ok {
+							return f.load(env.st, f.lvalOf(al)), true
+						}
+					}
+				}
+			}
+		}
 		return TV{}, false
 	}
-	if best.IsAddr {
+	if best.isAddr {
 		// address-taken variable: its value is the content of its cell in the
 		// state the expression is evaluated in
 		if env.st == nil {
 			return TV{}, false
 		}
-		if _, isLV := f.lvs[best.X]; !isLV {
-			if _, ok := f.vals[best.X]; !ok {
-				if _, isG := best.X.(*ssa.Global); !isG {
+		if _, isLV := f.lvs[best.x]; !isLV {
+			if _, ok := f.vals[best.x]; !ok {
+				if _, isG := best.x.(*ssa.Global); !isG {
 					return TV{}, false
 				}
 			}
 		}
-		return f.load(env.st, f.lvalOf(best.X)), true
+		return f.load(env.st, f.lvalOf(best.x)), true
 	}
 	// the value must not be redefined inside a loop that contains the anchor
 	// unless it is a header phi (handled by headEnv before we get here)
-	if tv, ok := f.vals[best.X]; ok {
+	if tv, ok := f.vals[best.x]; ok {
 		return tv, true
 	}
-	if c, ok := best.X.(*ssa.Const); ok {
+	if c, ok := best.x.(*ssa.Const); ok {
 		return f.constVal(c), true
 	}
 	return TV{}, false
@@ -757,6 +799,25 @@ func (f *frame) transCall(x *CCall, env *Env) TV {
 			return TV{T: f.bytesToStr(env.st, v.T), S: "Str", Ty: types.Typ[types.String]}
 		}
 		cfail("string() of sort %s", v.S)
+	case "unchanged":
+		// unchanged(e): e (a map: with its contents) has the value it had in the pre-state
+		need(1)
+		if env.old == nil {
+			cfail("unchanged() not available here")
+		}
+		ne := *env
+		ne.st = env.old
+		if env.oldVars != nil {
+			ne.vars = map[string]TV{}
+			for k, v := range env.vars {
+				ne.vars[k] = v
+			}
+			for k, v := range env.oldVars {
+				ne.vars[k] = v
+			}
+		}
+		o := f.snapshot(f.trans(x.Args[0], &ne), env.old)
+		return TV{T: f.sameSnapshot(o, arg(0), env.st), S: "Bool"}
 	case "freshInLoop":
 		// freshInLoop(s): the backing array of slice s (if any element) was
 		// allocated during the current iteration of the innermost loop that
@@ -818,6 +879,11 @@ func (f *frame) transCall(x *CCall, env *Env) TV {
 		vc.nameCnt++
 		k := q(fmt.Sprintf("k!q%d", vc.nameCnt))
 		return TV{T: fmt.Sprintf("(exists ((%s Int)) (and (<= 0 %s) (< %s (slen %s)) (= (sbyte %s %s) %s)))", k, k, k, s.T, s.T, k, f.coerceTV(c, bvSort(8))), S: "Bool"}
+	}
+	// visitedN(k): key k has been produced by the N-th map range loop
+	if g, ok := env.vars[id.Name]; ok && strings.HasPrefix(g.S, "(Array ") && len(x.Args) == 1 {
+		ks := f.visitedKeySort[id.Name]
+		return TV{T: sel(g.T, f.coerceTV(arg(0), ks)), S: "Bool"}
 	}
 	// user spec function
 	if sp := f.eng().specFor(env.pkg, id.Name); sp != nil {
